@@ -227,3 +227,17 @@ Definition map_retain {V} (m : rmap V) (keep : N -> bool) : rmap V := filter (fu
 
 (** [a.or(b)] on options *)
 Definition opt_or_else {A} (a b : option A) : option A := match a with Some _ => a | None => b end.
+
+(** [m.retain(|k, v| { ..; keep })] with a closure that assigns captured variables (the state [S] handed from
+    entry to entry) and may panic: the entries are visited in the order of the association list, which stands for
+    the unspecified order of the hash map (a theorem about every list that represents the map is a theorem about
+    every visiting order) *)
+Fixpoint map_retain_st {V S} (m : rmap V) (f : S -> N -> V -> trap (result (S * bool))) (s : S)
+  : trap (result (rmap V * S)) :=
+  match m with
+  | [] => Val (OkR ([], s))
+  | (k, v) :: r =>
+      ' (s1, keep) <-? f s k v ;;
+      ' (r', s2) <-? map_retain_st r f s1 ;;
+      Val (OkR (if keep : bool then (k, v) :: r' else r', s2))
+  end.
